@@ -115,6 +115,7 @@ class Ctx:
                 if kw is not None:
                     from .defined import written_attrs
                     now = written_attrs(fi.node, names[fi.module])
+                    kw = {k: v for k, v in kw.items() if not k.startswith('<')}
                     new = sorted(a for a in now if a not in kw)
                     more = sorted(f'{a}: {now[a]} writing sites, {kw[a]} when reviewed' for a in now if a in kw and now[a] > kw[a])
                     where = fi.node
